@@ -1,7 +1,7 @@
 (* C08, not property obligations: statements the faithful model of the UNCHANGED code violates, with
    witnesses by vm_compute.  Both traces are in the corpus of harness/db/verif_c08_test.go, so the
    real changeCache is shown (by the correspondence) to reach exactly these states. *)
-From SG Require Import Base.Prelude C08.SkippedSet C08.SeqBuffer C08.SeqBufferInv.
+From SG Require Import Base.Prelude C08.SkippedSet C08.SeqBuffer C08.SeqBufferInv C08.SeqBufferCons C08.DocFeed.
 Open Scope N_scope.
 
 (* A cache started at sequence 0 that skips sequence 1: oldest skipped - 1 = 0 is also the encoding of
@@ -21,4 +21,37 @@ Lemma range_straddling_initial_is_ignored :
 Proof.
   exists [ArriveRange 5 15 false; Arrive KDoc 16 true; Housekeep], 11. split; [vm_compute; reflexivity|].
   exists (ArriveRange 5 15 false). split; [now left | reflexivity].
+Qed.
+
+
+(* Observation (b) of the builder, on an INCONSISTENT feed (sequence 12 is a document and also the start of an
+   unused range): which of the two is on top of the pending heap decides the outcome.  Single first: 12 is
+   cached, the range is then below nextSequence and the stale branch extends nextSequence to 16.  Range first:
+   _popPendingLog ignores the range in favour of the single, 13..15 are never declared unused and will be
+   skipped.  Both traces are in the harness corpus (two-element heap: first in, first out, as in the model);
+   C08_seqbuf_pending_ties_identical shows a consistent feed cannot get there. *)
+Lemma tie_order_matters :
+  let single_first := [Arrive KDoc 12 false; ArriveRange 12 15 false; Arrive KDoc 11 false] in
+  let range_first := [ArriveRange 12 15 false; Arrive KDoc 12 false; Arrive KDoc 11 false] in
+  ~ feed_consistent single_first
+  /\ next (run (init 10 100) single_first) = 16 /\ next (run (init 10 100) range_first) = 13.
+Proof.
+  split; [|vm_compute; split; reflexivity].
+  intros C. specialize (C (Arrive KDoc 12 false) (ArriveRange 12 15 false) (KDoc, 12, 12) (KUnused, 12, 15)).
+  destruct C as [C|[C|C]]; cbn; auto; try discriminate; unfold ev_lo, ev_hi in C; cbn in C; lia.
+Qed.
+
+(* DocChanged looks a recent sequence up in the skipped list WITHOUT the lock and presets change.Skipped; the
+   preset flag makes processEntry bypass its "already processed" test.  If the sequence is delivered (and leaves
+   the skipped list) between the lookup and the call -- which needs a second feed worker handling the same
+   sequence number, i.e. the same document, at the same time: excluded by the per-vbucket ordering of the feed --
+   it is forwarded to the channel cache a second time.  The trace is in the harness corpus (processEntry called
+   with Skipped = true for a sequence that has just arrived late). *)
+Lemma stale_skipped_flag_delivers_twice :
+  exists ops e, let st := run (init 10 100) ops in
+    sk_mem (e_seq e) (skipped st) = false /\
+    map d_seq (delivered (process_entry_gen true st e)) = e_seq e :: e_seq e :: map d_seq (tl (delivered st)).
+Proof.
+  exists [Arrive KDoc 12 true; Housekeep; Arrive KDoc 11 false], (mkE 11 0 KUnused false).
+  vm_compute. split; reflexivity.
 Qed.
